@@ -21,25 +21,25 @@ Import ListNotations.
     + the Jacobian term unless hideJacobian),
    in both timing conventions, with other biases, run boundaries, values inside and outside the grid,
    one or more variables.  [wf_cfg]: stepZeroData only with same-step forces (the code rejects it
-   otherwise).  [apply_const a h]: applyBias has the same value a at every step, i.e. it is a configuration
-   option as in the property text (run-time switching: T1s below).
-   No other side condition: the `jac_ok` of the previous version went with fix 318ea9be. *)
+   otherwise).  applyBias is an input of every step ([i_apply]): the theorem covers every run-time switching
+   (`cv bias <name> set apply_force 0|1`).  No other side condition: `jac_ok` went with fix 318ea9be, `steady` /
+   `apply_const` with fix 5b106d10. *)
 Theorem C04_abf_state_is_sample_sum :
-  forall (c : @abf_cfg R) (h : list (@abf_in R)) (b : idx) (a : bool),
-    wf_cfg c -> apply_const a h ->
+  forall (c : @abf_cfg R) (h : list (@abf_in R)) (b : idx),
+    wf_cfg c ->
     s_cnt (fst (abf_run Rops c h)) b = cnt_of b (attributed Rops c (trace_of Rops c h)) /\
     forall k, (k < c_nd c)%nat ->
       vget Rops (s_sum (fst (abf_run Rops c h)) b) k = (- fsum_of Rops k b (attributed Rops c (trace_of Rops c h)))%R.
-Proof. exact abf_state_is_sample_sum_const. Qed.
+Proof. exact abf_state_is_sample_sum. Qed.
 Print Assumptions C04_abf_state_is_sample_sum.
 
 (* the same for the whole vector stored in the bin *)
 Theorem C04_abf_sum_vector :
-  forall (c : @abf_cfg R) (h : list (@abf_in R)) (b : idx) (a : bool),
-    wf_cfg c -> apply_const a h ->
+  forall (c : @abf_cfg R) (h : list (@abf_in R)) (b : idx),
+    wf_cfg c ->
     s_sum (fst (abf_run Rops c h)) b
     = vbuild (c_nd c) (fun k => (- fsum_of Rops k b (attributed Rops c (trace_of Rops c h)))%R).
-Proof. exact abf_sum_vector_const. Qed.
+Proof. exact abf_sum_vector. Qed.
 Print Assumptions C04_abf_sum_vector.
 
 (* ---- T1'.  The property as worded: the stored free-energy gradient of every bin (what
@@ -47,53 +47,30 @@ Print Assumptions C04_abf_sum_vector.
    MINUS THE ARITHMETIC MEAN of the forces of the samples attributed to the bin, the stored count is their
    number, and the gradient of a bin without samples is 0. *)
 Theorem C04_stored_gradient_is_minus_mean :
-  forall (c : @abf_cfg R) (h : list (@abf_in R)) (b : idx) (k : nat) (a : bool),
-    wf_cfg c -> apply_const a h -> (k < c_nd c)%nat ->
+  forall (c : @abf_cfg R) (h : list (@abf_in R)) (b : idx) (k : nat),
+    wf_cfg c -> (k < c_nd c)%nat ->
     let s := fst (abf_run Rops c h) in
     let S := attributed Rops c (trace_of Rops c h) in
     s_cnt s b = cnt_of b S /\
     ((0 < cnt_of b S)%Z -> grad_out Rops (s_cnt s) (s_sum s) b k = (- mean_force S b k)%R) /\
     (cnt_of b S = 0%Z -> grad_out Rops (s_cnt s) (s_sum s) b k = 0%R).
-Proof. exact stored_gradient_is_minus_mean_const. Qed.
+Proof. exact stored_gradient_is_minus_mean. Qed.
 Print Assumptions C04_stored_gradient_is_minus_mean.
 
 (* ---- T1i.  inputPrefix (a list of prefixes, one data set each, added in order): a run started from data read
    from .count/.grad files ends with count = counts read + number of attributed samples,
    sum = sum over the data sets of gradient read * count read - sum of the sample forces. *)
 Theorem C04_abf_state_with_input_data :
-  forall (c : @abf_cfg R) (l : list (@dataset R)) (h : list (@abf_in R)) (b : idx) (a : bool),
-    wf_cfg c -> apply_const a h ->
+  forall (c : @abf_cfg R) (l : list (@dataset R)) (h : list (@abf_in R)) (b : idx),
+    wf_cfg c ->
     let s0 := abf_init_data Rops c l in
     let r := abf_run_data Rops c l h in
     let S := attributed Rops c (trace_from Rops c s0 h) in
     s_cnt (fst r) b = (data_cnt l b + cnt_of b S)%Z /\
     forall k, (k < c_nd c)%nat ->
       vget Rops (s_sum (fst r) b) k = (data_sum l b k - fsum_of Rops k b S)%R.
-Proof. exact abf_state_with_input_data_const. Qed.
+Proof. exact abf_state_with_input_data. Qed.
 Print Assumptions C04_abf_state_with_input_data.
-
-(* ---- T1s.  applyBias switched at run time (`cv bias <name> set apply_force 0|1`: [i_apply] differs from
-   step to step).  FULL STATEMENT (false of the code, see _refuted): T1 for every history.
-   It holds under [steady c a h]: with hideJacobian AND lagged forces the switch is not used; without
-   hideJacobian, or with same-step forces, applyBias may change at every step (Examples below). *)
-Theorem C04_abf_state_is_sample_sum_switching_partial :
-  forall (c : @abf_cfg R) (h : list (@abf_in R)) (b : idx) (a : bool),
-    wf_cfg c -> steady c a h ->
-    s_cnt (fst (abf_run Rops c h)) b = cnt_of b (attributed Rops c (trace_of Rops c h)) /\
-    forall k, (k < c_nd c)%nat ->
-      vget Rops (s_sum (fst (abf_run Rops c h)) b) k = (- fsum_of Rops k b (attributed Rops c (trace_of Rops c h)))%R.
-Proof. exact abf_state_is_sample_sum. Qed.
-Print Assumptions C04_abf_state_is_sample_sum_switching_partial.
-
-(* W7: hideJacobian, lagged forces, Jacobian force 3, engine force 1, applyBias on at step 0 and switched off
-   before step 1: the stored sum of bin [0] is +1 (samples -2 and 1), minus the attributed samples (1, 1) is -2. *)
-Theorem C04_abf_state_is_sample_sum_switching_refuted :
-  exists (c : @abf_cfg Q) (h : list (@abf_in Q)) (b : idx),
-    c_szd c = false /\ c_hidej c = true /\ c_same_step c = false /\
-    stored_cnt c h b = spec_cnt c h b /\
-    Qeq_bool (stored_sum c h b 0) (spec_sum c h b 0) = false.
-Proof. exists w7_cfg, w7_hist, [0%Z]. vm_compute. repeat split; reflexivity. Qed.
-Print Assumptions C04_abf_state_is_sample_sum_switching_refuted.
 
 (* ---- T2.  The ABF force handed to variable k at the step that follows any history is
    ramp(count b) * (sum b / count b) for the current bin b (count and sum AFTER this step's accumulation),
@@ -141,28 +118,89 @@ Print Assumptions C04_same_grids_same_force.
 (* T1 after a restart: whatever happened before, after a restart from the data set d and the steps h the grids are
    d plus the samples attributed in h *)
 Theorem C04_abf_state_after_restart :
-  forall (c : @abf_cfg R) (evs : list (@abf_event R)) (d : @dataset R) (h : list (@abf_in R)) (b : idx) (a : bool),
-    wf_cfg c -> apply_const a h ->
+  forall (c : @abf_cfg R) (evs : list (@abf_event R)) (d : @dataset R) (h : list (@abf_in R)) (b : idx),
+    wf_cfg c ->
     let s0 := abf_set_grids Rops c (abf_init Rops c) d 0 in
     let s := abf_run_events Rops c (evs ++ [EvRestart d] ++ map (@EvStep R) h) in
     let S := attributed Rops c (trace_from Rops c s0 h) in
     s_cnt s b = (fst d b + cnt_of b S)%Z /\
     forall k, (k < c_nd c)%nat ->
       vget Rops (s_sum s b) k = (vget Rops (snd d b) k * IZR (fst d b) - fsum_of Rops k b S)%R.
-Proof. exact abf_state_after_restart_const. Qed.
+Proof. exact abf_state_after_restart. Qed.
 Print Assumptions C04_abf_state_after_restart.
+
+(* T1 across a load of a state file into the RUNNING instance, after the step i0 made from any state s: the grids are
+   the data set d plus the samples delivered after the load; in the lagged convention the first of them is the force of
+   step i0 itself (exerted before the load, delivered after it, attributed to the bin of i0). *)
+Theorem C04_abf_state_after_reload :
+  forall (c : @abf_cfg R) (s : @abf_state R) (i0 : @abf_in R) (d : @dataset R) (h : list (@abf_in R)) (b : idx),
+    wf_cfg c ->
+    let so := abf_step Rops c s i0 in
+    let s' := abf_set_grids Rops c (fst so) d 0 in
+    let p := (i0, snd so) in
+    let r := abf_run_from Rops c s' h in
+    let tr := trace_from Rops c s' h in
+    let A := attributed_of c (if c_same_step c then deliveries_same Rops c tr else deliveries_lag Rops c (Some p) tr) in
+    s_cnt (fst r) b = (fst d b + cnt_of b A)%Z /\
+    forall k, (k < c_nd c)%nat ->
+      vget Rops (s_sum (fst r) b) k = (vget Rops (snd d b) k * IZR (fst d b) - fsum_of Rops k b A)%R.
+Proof. exact abf_state_after_reload. Qed.
+Print Assumptions C04_abf_state_after_reload.
+
+(* T1 for a bias DEFINED WHILE THE SIMULATION IS RUNNING (a later `config`; the engine's last step had
+   step_relative = rel): the grids are the samples attributed in the bias's own history; nothing that happened before it
+   existed enters a bin (force_bin starts outside of the grid: fix 3cb1a6bc). *)
+Theorem C04_abf_state_late_definition :
+  forall (c : @abf_cfg R) (rel : Z) (h : list (@abf_in R)) (b : idx),
+    wf_cfg c -> (0 < c_nd c)%nat ->
+    let s0 := abf_init_late Rops c rel in
+    let r := abf_run_from Rops c s0 h in
+    let S := attributed Rops c (trace_from Rops c s0 h) in
+    s_cnt (fst r) b = cnt_of b S /\
+    forall k, (k < c_nd c)%nat -> vget Rops (s_sum (fst r) b) k = (- fsum_of Rops k b S)%R.
+Proof. exact abf_state_late_definition. Qed.
+Print Assumptions C04_abf_state_late_definition.
+
+(* ---- T1m/T2m.  timeStepFactor k on the bias and its variables (same-step total forces; the code excludes it with
+   lagged ones): [abf_mstep]/[abf_mrun_from].  The grids hold the samples of the steps at which the bias is awake
+   (step number a multiple of k); at such a step the ABF force is [spec_force] of the grids and the variable receives
+   k times it (times the scaling factor); while asleep nothing is applied and the grids do not change. *)
+Theorem C04_mts_state_is_sample_sum :
+  forall (c : @abf_cfg R) (k : Z) (h : list (@abf_in R)) (b : idx),
+    c_same_step c = true ->
+    let r := abf_mrun_from Rops c k (abf_init Rops c) h in
+    let S := attributed_mts Rops c k (combine h (snd r)) in
+    s_cnt (fst r) b = cnt_of b S /\
+    forall d, (d < c_nd c)%nat -> vget Rops (s_sum (fst r) b) d = (- fsum_of Rops d b S)%R.
+Proof. exact mts_state_is_sample_sum. Qed.
+Print Assumptions C04_mts_state_is_sample_sum.
+
+Theorem C04_mts_force :
+  forall (c : @abf_cfg R) (k : Z) (s : @abf_state R) (i : @abf_in R) (d : nat),
+    (forall b, 0 <= s_cnt s b)%Z -> (d < c_nd c)%nat -> (0 <= c_min c < c_full c)%Z ->
+    (c_cap c = true -> (0 <= vget Rops (c_maxf c) d)%R) ->
+    let so := abf_mstep Rops c k s i in
+    (awake k (st_clk s i) = true ->
+       vget Rops (o_fabf (snd so)) d
+         = spec_force c (i_apply i) (s_cnt (fst so)) (s_sum (fst so)) (bins Rops c (i_x i)) d /\
+       vget Rops (o_fapp (snd so)) d = (IZR k * vget Rops (o_fabf (snd so)) d * sfac Rops c (bins Rops c (i_x i)))%R) /\
+    (awake k (st_clk s i) = false ->
+       vget Rops (o_f (snd so)) d = 0%R /\ vget Rops (o_fapp (snd so)) d = 0%R /\
+       s_cnt (fst so) = s_cnt s /\ s_sum (fst so) = s_sum s).
+Proof. exact mts_force. Qed.
+Print Assumptions C04_mts_force.
 
 (* ---- T2'.  T1 and T2 together, without reference to the stored arrays: for every history h and next
    step i, the ABF force of that step is [spec_force_samples] of the samples attributed in h ++ [i]:
    ramp(N_b) * (- arithmetic mean of the N_b sample forces of the current bin b), minus the grid average of
    the same quantity for one periodic variable, clipped to +-maxForce, 0 outside the grid / applyBias off. *)
 Theorem C04_applied_force_is_smoothed_negative_mean :
-  forall (c : @abf_cfg R) (h : list (@abf_in R)) (i : @abf_in R) (k : nat) (a : bool),
-    wf_cfg c -> apply_const a (h ++ [i]) -> (k < c_nd c)%nat -> (0 <= c_min c < c_full c)%Z ->
+  forall (c : @abf_cfg R) (h : list (@abf_in R)) (i : @abf_in R) (k : nat),
+    wf_cfg c -> (k < c_nd c)%nat -> (0 <= c_min c < c_full c)%Z ->
     (c_cap c = true -> (0 <= vget Rops (c_maxf c) k)%R) ->
     vget Rops (o_fabf (snd (abf_step Rops c (fst (abf_run Rops c h)) i))) k
-    = spec_force_samples c a (attributed Rops c (trace_of Rops c (h ++ [i]))) (bins Rops c (i_x i)) k.
-Proof. exact applied_force_is_smoothed_negative_mean_const. Qed.
+    = spec_force_samples c (i_apply i) (attributed Rops c (trace_of Rops c (h ++ [i]))) (bins Rops c (i_x i)) k.
+Proof. exact applied_force_is_smoothed_negative_mean. Qed.
 Print Assumptions C04_applied_force_is_smoothed_negative_mean.
 
 (* what the variable receives from the bias is that force times the factor of the scaling grid at the current
@@ -228,27 +266,23 @@ Print Assumptions C04_run_boundary_history.
 
 (* ---- non-vacuity *)
 
-(* wf_cfg and steady hold for a lagged configuration with hideJacobian, with a two-step history in which applyBias
-   is on; apply_const for that history; steady holds for EVERY history (any switching) without hideJacobian or with
-   same-step forces *)
+(* wf_cfg holds for a lagged configuration with hideJacobian, with a two-step history that switches applyBias off *)
 Example C04_example_wf :
   let c := @mkCfg R 1 [0%R] [1%R] [2%Z] [false] 2 1 true false [0%R] false false [false] true [false] true (fun _ => (1/2)%R) in
-  let h := [@mkIn R [(1/2)%R] [1%R] [0%R] [3%R] false true; @mkIn R [(1/2)%R] [0%R] [0%R] [3%R] false true] in
-  wf_cfg c /\ steady c true h /\ c_hidej c = true /\ c_same_step c = false /\ length (trace_of Rops c h) = 2%nat.
+  let h := [@mkIn R [(1/2)%R] [1%R] [0%R] [3%R] false true; @mkIn R [(1/2)%R] [0%R] [0%R] [3%R] false false] in
+  wf_cfg c /\ c_hidej c = true /\ c_same_step c = false /\ length (trace_of Rops c h) = 2%nat.
 Proof. exact example_wf_lagged. Qed.
-Example C04_example_apply_const :
-  apply_const true [@mkIn R [(1/2)%R] [1%R] [0%R] [3%R] false true; @mkIn R [(1/2)%R] [0%R] [0%R] [3%R] false true].
-Proof. exact example_apply_const. Qed.
-Example C04_example_steady_nohide : forall (c : @abf_cfg R) a h, c_hidej c = false -> steady c a h.
-Proof. exact steady_nohide. Qed.
-Example C04_example_steady_same : forall (c : @abf_cfg R) a h, c_same_step c = true -> steady c a h.
-Proof. exact steady_same. Qed.
 
 (* event_ok holds for a step, a restart and a reload with non-negative counts *)
 Example C04_example_event_ok : Forall event_ok [EvStep (@mkIn R [(1/2)%R] [1%R] [0%R] [0%R] false true);
                                                 EvRestart ((fun _ => 2%Z), (fun _ => [1%R]));
                                                 EvReload ((fun _ => 0%Z), (fun _ => [0%R]))].
 Proof. exact example_event_ok. Qed.
+
+(* both branches of T2m occur *)
+Example C04_example_awake : awake 2 (0%Z, false) = true /\ awake 2 (1%Z, false) = false /\ awake 3 (6%Z, true) = true /\
+                            awake 1 (5%Z, false) = true.
+Proof. exact awake_examples. Qed.
 
 (* T4's premise s_started = true holds after any step *)
 Example C04_example_started : forall (c : @abf_cfg R) s i, s_started (fst (abf_step Rops c s i)) = true.
@@ -305,3 +339,9 @@ Example C04_example_E7 :
   Qeq_bool (stored_sum e7_cfg e7_hist [0%Z] 0) (-(10#1)) = true /\
   Qeq_bool (spec_sum e7_cfg e7_hist [0%Z] 0) (-(10#1)) = true.
 Proof. exact e7_values. Qed.
+(* W7: hideJacobian, lagged, applyBias switched off after step 0: both samples are the engine force 1 *)
+Example C04_example_W7 :
+  stored_cnt w7_cfg w7_hist [0%Z] = 2%Z /\ spec_cnt w7_cfg w7_hist [0%Z] = 2%Z /\
+  Qeq_bool (stored_sum w7_cfg w7_hist [0%Z] 0) (-(2#1)) = true /\
+  Qeq_bool (spec_sum w7_cfg w7_hist [0%Z] 0) (-(2#1)) = true.
+Proof. exact w7_values. Qed.
